@@ -127,16 +127,19 @@ func (g *gen) newFunc() {
 	res := "r"
 	body := ""
 	tags := []string{}
+	post := ""
 	if len(shadow) > 0 && g.Chance(2, 3, "shadow") {
 		// shadowed occurrences must NOT count as dependencies
-		k := g.Pick(6, "shadow-kind")
+		k := g.Pick(9, "shadow-kind")
 		var ints []string // names of int-like items: a parameter of that name keeps real references well-typed
-		for _, it := range g.items {
+		var intIdx []int
+		for i, it := range g.items {
 			if it.kind == "var" || it.kind == "const" {
 				ints = append(ints, it.name)
+				intIdx = append(intIdx, i)
 			}
 		}
-		if k <= 1 && len(ints) == 0 {
+		if (k <= 1 || k >= 6) && len(ints) == 0 {
 			k = 2
 		}
 		switch k {
@@ -158,10 +161,29 @@ func (g *gen) newFunc() {
 			l := shadow[g.Pick(len(shadow), "sh")]
 			body += fmt.Sprintf("switch %s := interface{}(%s).(type) {\ncase int:\n\t%s += %s\n}\n", l, param, res, l)
 			tags = append(tags, "shadow-typeswitch")
-		default:
+		case 5:
 			l := shadow[g.Pick(len(shadow), "sh")]
 			body += fmt.Sprintf("%s:\n\tfor i := 0; i < 3; i++ {\n\t\tif i == 1 {\n\t\t\tcontinue %s\n\t\t}\n\t\t%s += i\n\t}\n", l, l, res)
 			tags = append(tags, "shadow-label")
+		default:
+			// a variable declared in the header of if / for / switch (or by range / type switch)
+			// shadows the package-level name only inside that statement: the reference AFTER
+			// the statement is a real dependency on the package-level declaration
+			j := g.Pick(len(ints), "sh")
+			l := ints[j]
+			switch k {
+			case 6:
+				body += fmt.Sprintf("if %s := %s + 1; %s > 0 {\n\t%s += %s\n}\n", l, param, l, res, l)
+				tags = append(tags, "shadow-if-init+reference-after")
+			case 7:
+				body += fmt.Sprintf("for %s := 0; %s < 2; %s++ {\n\t%s += %s\n}\n", l, l, l, res, l)
+				tags = append(tags, "shadow-for-init+reference-after")
+			default:
+				body += fmt.Sprintf("switch %s := %s; %s {\ncase 1:\n\t%s++\ndefault:\n\t%s += %s\n}\n", l, param, l, res, res, l)
+				tags = append(tags, "shadow-switch-init+reference-after")
+			}
+			post = fmt.Sprintf("%s += int(%s)\n", res, l)
+			deps = append(deps, intIdx[j])
 		}
 	}
 	if param == res {
@@ -175,7 +197,7 @@ func (g *gen) newFunc() {
 	}
 	// references that mention a name which is shadowed in this function would be wrong:
 	// drop dependencies on names used as param/result/local here
-	text := fmt.Sprintf("func %s(%s int) (%s int) {\n%s\treturn\n}", name, param, res, progen.Indent(pre+body))
+	text := fmt.Sprintf("func %s(%s int) (%s int) {\n%s\treturn\n}", name, param, res, progen.Indent(pre+body+post))
 	it := &item{name: name, kind: "func", text: text, deps: deps, typ: "func"}
 	// if the real references were captured by the shadowing names the text is still
 	// valid Go, only the dependency bookkeeping (used for the NT rule) is approximate
